@@ -46,7 +46,8 @@ def plan(tier):
         K("k_public", "kjobs.c04", "publicity_decision", "_is_public vs the statement's predicate", timeout=1800),
         CH("no_leak", "harness.c03", "no_leak", parts, timeout=t, desc="no private declaration in any stub",
            stubs=["in-memory FS"], symbolic="publicity/shape flags"),
-        CH("reexports", "harness.c04", "reexports", [f"0:{m},1:{n}" for m in range(3) for n in range(2)], timeout=t,
+        CH("reexports", "harness.c04", "reexports", [f"0:{m},1:{n}" + x for m in range(3) for n in range(2) for x in ([f",2:{k}" for k in range(12)] if tier == "thorough" else [""])],
+           timeout=t, allow_empty=tier == "thorough",
            desc="publicity through re-exports: private stays private unless re-exported; re-exported under a public name is public",
            stubs=["mypy -> shim"], symbolic="configuration selectors (names from look-alike pools)"),
     ]
